@@ -362,7 +362,7 @@ type ReqCase struct {
 	Seed  int64  `json:"seed"`
 	Scale string `json:"scale"`
 	// Init: the ledger is NOT written before the first request (first write on an initializing ledger)
-	Reqs []Req `json:"reqs"`
+	Reqs []Req  `json:"reqs"`
 	Cell string `json:"cell,omitempty"`
 }
 
@@ -456,15 +456,15 @@ func RunReqCase(c ReqCase) ([]BLine, error) {
 // orderGate holds every statement of the session that executes element A (recognised by a marker in its
 // SQL text) until element B (another marker) has committed and its result has had time to be delivered.
 type orderGate struct {
-	mu       sync.Mutex
-	cond     *sync.Cond
-	holdMark string
-	goMark   string
-	holdSess int
-	goSess   int
-	released bool
+	mu        sync.Mutex
+	cond      *sync.Cond
+	holdMark  string
+	goMark    string
+	holdSess  int
+	goSess    int
+	released  bool
 	releasing bool
-	sawHold  bool
+	sawHold   bool
 }
 
 func newOrderGate(hold, goMark string) *orderGate {
@@ -505,7 +505,7 @@ func (g *orderGate) waitTimeout(d time.Duration) {
 }
 
 func (g *orderGate) Blocked(worker string, sess int, onSess int) {}
-func (g *orderGate) Unblocked(worker string, sess int)             {}
+func (g *orderGate) Unblocked(worker string, sess int)           {}
 
 // ParallelOrderObs: outcome of the forced-order scenario.
 type ParallelOrderObs struct {
